@@ -29,8 +29,8 @@ include T
 theorem okAfter_term {t : ItemType} (ht : isTerm t) (e : Expr) : okAfter e t := by
   have hb : isBinaryOp t = false := by
     rw [isBinaryOp_eq T]; rcases ht with rfl | rfl | rfl | rfl | rfl <;> rfl
-  refine ⟨by rcases ht with rfl | rfl | rfl | rfl | rfl <;> simp [noAccess], ?_⟩
-  cases e <;> simp [edgeOk, hb] <;> (rcases ht with rfl | rfl | rfl | rfl | rfl <;> simp)
+  exact ⟨by rcases ht with rfl | rfl | rfl | rfl | rfl <;> simp [noAccess],
+    edgeOk_of_stop hb (by rcases ht with rfl | rfl | rfl | rfl | rfl <;> simp)⟩
 
 theorem stops_term {t : ItemType} (ht : isTerm t) (p : Nat) : Stops p t := by
   have hb : isBinaryOp t = false := by
